@@ -9,10 +9,16 @@
 (*   COVER     every vertex of the true outline lies within TOL of an edge,  *)
 (*   MONO      a curve edge's control point is between its end points in y   *)
 (*             (the precondition of CurveEdge.tla).                          *)
+(*   CHAIN     (lattice paths) the edge sequence is exactly the one the       *)
+(*             I-level cursor machine CursorImpl.FillRun produces: every line *)
+(*             edge with its end points, every curve as a contiguous run of   *)
+(*             curve edges from the machine's starting point to the curve's   *)
+(*             end point, in order, nothing else (binds MC_Cursor's Fill      *)
+(*             machine to apply_path).                                        *)
 (* TOL = 1/8 px + the fine polyline's deviation bound.  A failure is a       *)
 (* pointer, not a verdict on C08: the pipeline renders the input enlarged    *)
 (* and Trace_Curve decides per pixel.                                        *)
-EXTENDS Curve, TLC, Json, IOUtils
+EXTENDS Curve, CursorImpl, Json, IOUtils
 Rec == ndJsonDeserialize(IOEnv.TRACE)
 VARIABLE i
 Init == i \in 1..Len(Rec)
@@ -23,6 +29,21 @@ EdgePoly(g) ==
   IF g[5] = 0 THEN << <<g[1], g[2]>>, <<g[3], g[4]>> >>
   ELSE [k \in 1..17 |-> QuadAt(<<g[1], g[2]>>, <<g[6], g[7]>>, <<g[3], g[4]>>, k - 1)]
 EdgeEps(g) == IF g[5] = 0 THEN 0 ELSE Max(Abs(g[1] - 2 * g[6] + g[3]), Abs(g[2] - 2 * g[7] + g[4])) \div 1024 + 2
+\* CHAIN: exp = edges of CursorImpl.FillRun in device FU, rec = recorded edges <<sx, sy, ex, ey, curve, cx, cy>>
+RECURSIVE Chain(_, _)
+Chain(exp, rec) ==
+  IF exp = <<>> THEN rec = <<>>
+  ELSE LET x == Head(exp) IN
+       IF ~x[3] THEN /\ rec # <<>> /\ rec[1][5] = 0
+                     /\ <<rec[1][1], rec[1][2]>> = x[1] /\ <<rec[1][3], rec[1][4]>> = x[2]
+                     /\ Chain(Tail(exp), Tail(rec))
+       ELSE \E n \in 1..Len(rec) :
+              /\ \A k \in 1..n : rec[k][5] = 1
+              /\ <<rec[1][1], rec[1][2]>> = x[1] /\ <<rec[n][3], rec[n][4]>> = x[2]
+              /\ \A k \in 1..(n - 1) : <<rec[k][3], rec[k][4]>> = <<rec[k + 1][1], rec[k + 1][2]>>
+              /\ Chain(Tail(exp), SubSeq(rec, n + 1, Len(rec)))
+ExpEdges(ops, t, den) ==
+  LET es == FillRun(ops).edges IN [k \in 1..Len(es) |-> <<DevFU(t, den, es[k][1]), DevFU(t, den, es[k][2]), es[k][3]>>]
 \* long chords are split so that DistSq stays in range
 Check ==
   LET e == Rec[i] IN
@@ -43,4 +64,5 @@ Check ==
           ELSE /\ (far = {} \/ PrintT(<<"EDGE", i, "NEAR", far>>))
                /\ (uncovered = {} \/ PrintT(<<"EDGE", i, "COVER", uncovered>>))
                /\ (nonmono = {} \/ PrintT(<<"EDGE", i, "MONO", nonmono>>))
+               /\ (quant \/ Chain(ExpEdges(e.ops, t, e.den), e.edges) \/ PrintT(<<"EDGE", i, "CHAIN", Len(e.edges)>>))
 =============================================================================
